@@ -527,4 +527,24 @@ theorem mixed_never_moves (rp : RP) (reps : List Loc) (src dst : Loc) (hz : rp.z
     have : (rp.y + rp.x) * rp.z ≥ 1 := Nat.mul_pos (by omega) (by omega)
     omega
 
+/-- z = 0: the three counts of `isGoodMove` plus ONE data center with y+1 racks give the shape -/
+theorem good_shape_of_main (rp : RP) (a : List Loc) (g : GoodAfter rp a) (hz : rp.z = 0)
+    (d : Nat) (hd : d ∈ dcsOf a) (hnd : (racksIn a d).length = rp.y + 1) : ∃ r, Shape rp a d r := by
+  have hsum : ((dcsOf a).map fun d => (racksIn a d).length).sum = rp.y + rp.x + 1 := by
+    rw [← racks_eq_sum]; exact g.nracks
+  obtain ⟨r, hr⟩ := List.exists_mem_of_length_pos (l := racksIn a d) (by omega)
+  have hr' := (mem_racksIn a d r).mp hr
+  refine ⟨r, hr'.1, hr'.2, g.each r hr'.1, ?_, hnd, ?_, g.ndcs⟩
+  · intro k hk _ _
+    rw [g.each k hk, hz]
+  · intro d' hd' hne'
+    have hone : (racksIn a d').length = 1 :=
+      others_one (dcsOf a) (fun d => (racksIn a d).length) rp.y (fun d hd => racksIn_pos a d hd)
+        (by rw [hsum, g.ndcs]; omega) d hd hnd d' hd' hne'
+    rw [cntDc_eq_sum, sum_const _ _ 1 (fun k hk => by rw [g.each k ((mem_racksIn a d' k).mp hk).1, hz]), hone]
+
+/-- the decidable condition on (rp, replica set, move): after the move some data center still has y+1 racks -/
+def mainDcSurvives (rp : RP) (reps : List Loc) (src dst : Loc) : Bool :=
+  (dcsOf (afterOf reps src dst)).any fun d => (racksIn (afterOf reps src dst) d).length == rp.y + 1
+
 end SwV.Lemmas.C15
